@@ -1,7 +1,5 @@
 """Hand-written parts of MANIFEST.json."""
-NOT_APPLICABLE = [
-    {"property_id": "C17", "reason": "end-to-end equivalence of a query and the same query cut by persist/delayed/legacy round trips: truth depends on executing two graphs; the only structural facts (FromGraph key wiring, names) are already decided under C08/C09 and are not necessary conditions with teeth of their own (DESIGN.md section 3, C17)"},
-]
+NOT_APPLICABLE = []
 LEVEL_NOTE = {
     "*": "Trusted: CPython's ast parser; the class model in sa/model.py (base resolution through import tables, static C3 MRO, constant folding of _parameters/_defaults/flags); the exception tables in sa/rules/*.py, each entry confirmed by reading and probing the reference tree. Assumes classes are not patched dynamically and that pandas/dask core callables behave as documented. Decides structural necessary conditions only; value-level equality is out of reach of this technique.",
 }
